@@ -254,7 +254,12 @@ def run_cli(desc, root, rec):
 
     vsg.junit.datetime = _FakeDatetimeModule(real_datetime, clock)
 
-    if desc.get("stdin") is not None:
+    if desc.get("stdin_b64") is not None:
+        import base64
+
+        # like the real sys.stdin: a text wrapper in universal-newline mode over the piped bytes
+        sys.stdin = io.TextIOWrapper(io.BytesIO(base64.b64decode(desc["stdin_b64"])), encoding="utf-8")
+    elif desc.get("stdin") is not None:
         sys.stdin = io.StringIO(desc["stdin"])
     sys.argv = ["vsg"] + list(desc["argv"])
     upd = None
